@@ -69,9 +69,20 @@ def values(depth):
                      sub.map(lambda v: ['dictv', v]), sub.map(lambda v: ['setv', v]), st.sampled_from(LEAVES[:7]).map(lambda h: ['cls', h]))
 
 
+SELF_SHAPES = ['type[Self | int]', 'type[Self]', 'Self | int', 'Self', 'list[Self]', 'tuple[Self, ...]', 'dict[str, Self]']
+SELF_VALUES = ['own', 'other', 'int']
+
+
+def selfcalls():
+    # PEP 673: the meaning of Self is the class whose method carries the hint, so two decorated classes using the same
+    # hint text must each be checked against themselves, whichever was decorated or called first
+    return st.tuples(st.just('selfcall'), st.sampled_from(['SA', 'SB']), st.sampled_from(SELF_SHAPES), st.sampled_from(SELF_VALUES)).map(list)
+
+
 def queries(depth):
     h, v = hints(depth), values(min(depth, 2))
     return st.one_of(
+        selfcalls(),
         st.tuples(st.sampled_from(['is_bearable', 'is_bearable', 'die', 'call']), h, v).map(lambda t: [t[0], t[1], t[2]]),
         st.tuples(st.sampled_from(['is_subhint', 'typehint_eq']), h, h).map(lambda t: [t[0], t[1], t[2]]),
     )
@@ -105,6 +116,8 @@ def focused_query(draw):
 
 def related(q):
     """Operations likely to interact with the final query: same hint shape with look-alike leaves."""
+    if q[0] == 'selfcall':
+        return ['selfcall', 'SB' if q[1] == 'SA' else 'SA', q[2], 'own']     # the same hint text in the other class
     swaps = {('lit', 1): ['lit', True], ('lit', True): ['lit', 1], ('lit', 0): ['lit', False], ('lit', False): ['lit', 0],
              ('dyn', 'Dyn', 'v1'): ['dyn', 'Dyn', 'v2'], ('dyn', 'Dyn', 'v2'): ['dyn', 'Dyn', 'v1'], ('dyn', 'Dyn', 'v3'): ['dyn', 'Dyn', 'v1']}
 
@@ -336,6 +349,29 @@ class World:
                 if k == 'typehint_eq':
                     a, b = TypeHint(self.hint(op[1])), TypeHint(self.hint(op[2]))
                     return ['bool', a == b, 'samehash' if hash(a) == hash(b) else 'diffhash'] if False else ['bool', a == b]
+                if k == 'selfcall':
+                    name, shape, val = op[1], op[2], op[3]
+                    key = ('selfcls', name, shape)
+                    c = self.funcs.get(key)
+                    if c is None:
+                        ns = {'beartype': beartype, '__name__': 'c14mod'}
+                        exec('import typing\nfrom typing import Self\n@beartype\nclass %s:\n    def m(self, p: %s):\n        return p\n' % (name, shape), ns)
+                        c = self.funcs[key] = ns[name]
+                        setattr(self.mod, '%s_%d' % (name, SELF_SHAPES.index(shape)), c)
+                    other_name = 'SB' if name == 'SA' else 'SA'
+                    if val == 'other' and ('selfcls', other_name, shape) not in self.funcs:
+                        # the other class of the pair (undecorated stand-in if it does not exist yet: any foreign class will do)
+                        other = type(other_name, (), {'__module__': 'c14mod'})
+                    else:
+                        other = self.funcs.get(('selfcls', other_name, shape))
+                    pick = {'own': c, 'other': other, 'int': int}[val]
+                    if shape.startswith('type['):
+                        arg = pick
+                    else:
+                        inst = 3 if val == 'int' else pick()
+                        arg = {'list[Self]': [inst], 'tuple[Self, ...]': (inst,), 'dict[str, Self]': {'k': inst}}.get(shape, inst)
+                    c().m(arg)
+                    return ['ok']
                 if k == 'call':
                     # one wrapper per (hint, generation of the classes it names): a wrapper built for an earlier generation
                     # of a redefined class legitimately keeps checking against that generation
